@@ -245,8 +245,94 @@ pub fn run(ctx: &Ctx) {
             ctx.violation("batch.large", &e, json!({"kind": "batch_large", "n": n, "corrupt": cor.map(|(p, c)| vec![p as u64, c as u64])}));
         }
     });
+    correlated_alterations(ctx, &w);
     ctx.sample_tag("machine", json!({"max_len": max_len, "note": "BFS over batches built by append/duplicate/swap from honest or singly corrupted entries; each state: verify_batch (twice) vs conjunction of model verifications, plus all slice-length triples for short batches"}));
     let _ = hex(&[0u8]);
+}
+
+struct ZeroRng;
+impl rand_core::RngCore for ZeroRng {
+    fn next_u32(&mut self) -> u32 {
+        0
+    }
+    fn next_u64(&mut self) -> u64 {
+        0
+    }
+    fn fill_bytes(&mut self, _dest: &mut [u8]) {}
+    fn try_fill_bytes(&mut self, _dest: &mut [u8]) -> Result<(), rand_core::Error> {
+        Ok(())
+    }
+}
+impl rand_core::CryptoRng for ZeroRng {}
+
+/// The 128-bit coefficients a transcript-derived RNG yields when the transcript absorbs the
+/// per-entry challenge hashes and (optionally) the S halves -- the documented construction is
+/// `with_s = true`.  `merlin` is an external dependency, not code under test.
+fn coefficients(mats: &[([u8; 32], Vec<u8>, [u8; 64])], with_s: bool) -> Vec<U> {
+    use rand_core::RngCore;
+    let mut t = merlin::Transcript::new(b"ed25519 batch verification");
+    for (key, msg, sig) in mats {
+        let h = eddsa::sha512(&[&sig[..32], key, msg]);
+        t.append_message(b"hram", &h);
+    }
+    if with_s {
+        for (_, _, sig) in mats {
+            t.append_message(b"sig.s", &sig[32..]);
+        }
+    }
+    let mut rng = t.build_rng().finalize(&mut ZeroRng);
+    mats.iter()
+        .map(|_| {
+            let mut b = [0u8; 16];
+            rng.fill_bytes(&mut b);
+            U::from_le(&b)
+        })
+        .collect()
+}
+
+/// Adversarial batches: two entries whose S halves are altered in a correlated way that would
+/// cancel in the batch equation *if* the random coefficients did not depend on everything the
+/// documentation says they depend on.  Each altered entry is individually invalid, so the
+/// batch must be rejected.
+fn correlated_alterations(ctx: &Ctx, w: &World) {
+    use crate::model::zl::Zl;
+    for n in 2..=4usize {
+        for i in 0..n {
+            for j in 0..n {
+                if i == j {
+                    continue;
+                }
+                for with_s in [false, true] {
+                    ctx.eval(1);
+                    let batch: Vec<Entry> = (0..n).map(|k| Entry { key: (k % 3) as u8, msg: ((k + 1) % 3) as u8, corrupt: 0 }).collect();
+                    let mut mats: Vec<([u8; 32], Vec<u8>, [u8; 64])> = batch.iter().map(|e| w.material(e)).collect();
+                    // coefficients under the hypothesis (hashes of R, A, M are unchanged by altering S)
+                    let z = coefficients(&mats, with_s);
+                    let si = Zl(U::from_le(&mats[i].2[32..])).add(&Zl::new(&z[j]));
+                    let sj = Zl(U::from_le(&mats[j].2[32..])).sub(&Zl::new(&z[i]));
+                    mats[i].2[32..].copy_from_slice(&si.to_bytes());
+                    mats[j].2[32..].copy_from_slice(&sj.to_bytes());
+                    let keys: Vec<VerifyingKey> = mats.iter().map(|m| VerifyingKey::from_bytes(&m.0).unwrap()).collect();
+                    let msgs: Vec<&[u8]> = mats.iter().map(|m| &m.1[..]).collect();
+                    let sigs: Vec<Signature> = mats.iter().map(|m| Signature::from_bytes(&m.2)).collect();
+                    let singles: Vec<bool> = (0..n).map(|k| keys[k].verify(msgs[k], &sigs[k]).is_ok()).collect();
+                    let case = json!({"kind": "batch_correlated_s", "n": n, "i": i, "j": j, "coefficients_hash_s": with_s});
+                    match guarded(|| verify_batch(&msgs, &sigs, &keys).is_ok()) {
+                        Ok(ok) => {
+                            if ok != singles.iter().all(|x| *x) {
+                                ctx.violation(
+                                    "batch.correlated_alteration",
+                                    &format!("verify_batch is_ok = {} although entries {} and {} are individually invalid (S halves altered by multiples of the other entry's coefficient{})", ok, i, j, if with_s { "" } else { ", coefficients computed without the S halves" }),
+                                    case,
+                                );
+                            }
+                        }
+                        Err(e) => ctx.violation("batch.correlated_alteration", &format!("panic: {}", e), case),
+                    }
+                }
+            }
+        }
+    }
 }
 
 /// C15: verify_batch never panics on the corruption space, mismatched lengths, adversarial
